@@ -37,8 +37,6 @@ Definition pool_eqb (a b : pool) : bool :=
 (** what the harness observed for one pool text *)
 Inductive obs_res := OOk (p : pool) | OErr | OPanic | OTimeout.
 
-Definition total_size (p : pool) : N := fold_left (fun a r => a + (snd r + 1 - fst r)) (p_ranges p) 0.
-
 (** correspondence: model vs implementation, projected on accept/reject, decoded value,
     re-encoding, Size, Contains on probes and the enumeration *)
 Definition chk_range (s : str) (o : option (N * N)) (ostr : str) : bool :=
@@ -65,16 +63,6 @@ Definition chk_pool (fl : flags) (j : json) (o : obs_res) (omarshal : json) (osi
   end.
 
 (** monitors: the predicates of the C20 theorems, evaluated on what the IMPLEMENTATION returned *)
-Fixpoint ranges_valid (g l : N) (prev : option range) (rs : list range) : bool :=
-  match rs with
-  | [] => true
-  | r :: rest =>
-      (fst r <=? snd r) && net_contains g l (fst r) && net_contains g l (snd r) &&
-      match prev with None => true | Some p => snd p + 1 <? fst r end &&
-      ranges_valid g l (Some r) rest
-  end.
-Definition pool_valid (p : pool) : bool := ranges_valid (p_gateway p) (p_masklen p) None (p_ranges p).
-
 Fixpoint nodup_sorted (l : list N) : bool :=
   match l with
   | a :: ((b :: _) as r) => (a <? b) && nodup_sorted r
